@@ -272,6 +272,8 @@ class map_impl {
           "Attempting to deserialize map_impl using communicator of "
           "different size than serialized with");
     }
+    // No rank may return (and insert again) before every rank has loaded
+    m_comm.cf_barrier();
   }
 
   int owner(const key_type &key) const {
